@@ -370,7 +370,8 @@ def main(argv=None):
         print(line)
 
     rc = 0
-    vdir = os.path.join(VERIF, "replays", "found", prop)
+    vdir = (os.path.join(VERIF, "replays", "found", prop) if os.path.realpath(REPO) == "/repo"
+            else os.path.join("/tmp", "verif-mutant-replays", prop))
     for b, (m, c, tname) in sorted(violations.items()):
         os.makedirs(vdir, exist_ok=True)
         path = os.path.join(vdir, "%s-seed%d.json" % (_slug(b), seed))
